@@ -3,6 +3,8 @@ import SuxModel.RankSel.Small.LemmasCheckZero
 import SuxModel.RankSel.Small.LemmasLayer
 import SuxModel.RankSel.Select9.LemmasCheck
 import SuxModel.RankSel.Select9.LemmasBuildInv
+import SuxModel.RankSel.Select9.LemmasRank9View
+import SuxModel.RankSel.Small.LemmasRankSmallView
 /-!
 # C02 — Select9 / SelectSmall / SelectZeroSmall return the bit of rank `r`
 
@@ -169,19 +171,10 @@ example : ∃ p, Select9.select exWs9 (Select9.viewOf exWs9 exLen9) (numOnes exW
     IsSelect exWs9 exLen9 700 p :=
   (select9_query_correct exWs9 exLen9 (by decide) (by decide) exS9 exS9_inv 700).1 (by decide +kernel)
 
-/-! ## Select9, builder (partial)
+/-! ## Select9, builder
 
-Full statement of (B) for Select9 (NOT proved; covered per instance by the sound decidable check
-`Select9.s9InvCheck`, which evaluates to `true` on the model-built — and, by the `parts` tie, the
-real — arrays of every span class, see the report):
-
-  theorem select9_build_establishes_inv (ws : Array Nat) (len : Nat) (hlen : len ≤ 64 * ws.size)
-      (hl64 : len < 2 ^ 64) :
-      ∃ s, Select9.build ws len (numOnes ws len) (Select9.viewOf ws len) = .ok s ∧ Select9.S9InvOK ws len s
-
-Proved: the first phase (inventory).  Missing: the second phase (`subLoop`: the 16-bit counter fills
-of classes 2..=127 and the position scans of classes ≥ 128, their debug assertions and their frame
-condition). -/
+`select9_build_inventory_partial` (first phase only) is kept under its old name; the full (B) statement
+is `select9_build_establishes_inv` below (lemma files `Select9/LemmasSub{Lanes,Counters,Scan,Frame}.lean`). -/
 
 /-- (B), partial: the inventory loop of `Select9::new` over ALL backend words (with the
 `.min(num_ones - curr)` clipping) returns `⌈N/512⌉` entries, entry `i` is the position of the one of
@@ -198,5 +191,119 @@ theorem select9_build_inventory_partial (ws : Array Nat) (len : Nat) (hlen : len
   Select9.build_inventory_partial ws len hlen hl64
 
 example := select9_build_inventory_partial exWs9 exLen9 (by decide) (by decide)
+
+/-- 1100 backend words with one set bit each (bit 0), 70390 bits: 1100 ones, three inventory entries
+at `0`, `32768`, `65536`; the first two spans are `128` subinventory words (class `128..=255`, `u16`
+position scan), the last one (up to the sentinel `70400`) is of class `16..=127` -/
+def exWsScan : Array Nat := Array.replicate 1100 1
+def exLenScan : Nat := 70390
+
+theorem exWsScan_ok : WordsOK 64 exWsScan := by
+  apply WordsOK_of_getD
+  intro i _
+  unfold exWsScan
+  rw [getD_replicate]
+  split <;> decide
+
+theorem exWsScan_len : exLenScan ≤ 64 * exWsScan.size := by
+  unfold exWsScan exLenScan
+  rw [Array.size_replicate]
+  decide
+
+theorem exWs9_ok : WordsOK 64 exWs9 := by
+  apply WordsOK_of_getD
+  intro i _
+  unfold exWs9
+  rw [getD_replicate]
+  split <;> decide
+
+/-- (B) `Select9::new` over ANY backend `(ws, len)` of 64-bit words with `len ≤ 64 * ws.size`
+(arbitrary stale bits at or beyond `len`, arbitrary extra words; `len < 2^64` is the range of `usize`),
+given the number of ones of the vector and the Rank9 counters: both phases run without `panic` /
+`oob` — every `debug_assert!`, every overflow check and every safe index of the builder holds, for
+all six span classes — and the result satisfies `S9InvOK` (inventory entries, sentinel, the `u16`
+counter fills of classes `2..=15` / `16..=127` with their `0xFFFF` padding and two-level layout, the
+`u16` / `u32` / `u64` position lanes of classes `128..=255` / `256..=511` / `≥ 512`; the writes of
+different inventory entries touch disjoint word ranges). -/
+theorem select9_build_establishes_inv (ws : Array Nat) (len : Nat) (hw : WordsOK 64 ws)
+    (hlen : len ≤ 64 * ws.size) (hl64 : len < 2 ^ 64) :
+    ∃ s, Select9.build ws len (numOnes ws len) (Select9.viewOf ws len) = .ok s ∧ Select9.S9InvOK ws len s :=
+  Select9.build_inv ws len hw hlen hl64
+
+example := select9_build_establishes_inv exWs9 exLen9 exWs9_ok (by decide) (by decide)
+example := select9_build_establishes_inv exWsScan exLenScan exWsScan_ok exWsScan_len (by decide)
+
+/-- end to end: the layer `.s9` (what `modelOf` returns) answers `select r` with the specification
+`selectSpec ws len r` for EVERY `r` (`some p` = position of the one of rank `r`, `none` iff
+`r ≥ numOnes`); never `oob` / `panic` -/
+theorem select9_layer_select_correct (ws : Array Nat) (len : Nat) (hw : WordsOK 64 ws)
+    (hlen : len ≤ 64 * ws.size) (hl64 : len < 2 ^ 64) :
+    ∃ f, (Select9.layer ws len (numOnes ws len)).select = some f ∧ ∀ r, f r = .ok (selectSpec ws len r) :=
+  Select9.layer_correct ws len hw hlen hl64
+
+example := select9_layer_select_correct exWsScan exLenScan exWsScan_ok exWsScan_len (by decide)
+
+/-! ## Select9 over the real Rank9 layer -/
+
+/-- the spec-level counter view the `Select9` model reads (`viewOf` = `r9View` over `cumOnes`) IS the
+array `Rank9::new` builds (model `Rank9.build`, C01): same length, `absolute[b]` and the packed
+`relative[b]` word for word, sentinel `(num_ones, 0)` included -/
+theorem select9_view_is_rank9_build (ws : Array Nat) (len : Nat) (hlen : len ≤ 64 * ws.size) :
+    ∃ counts, Rank9.build ws len = .ok counts ∧ Select9.viewOf ws len = Select9.viewOfCounts counts :=
+  Select9.rank9_build_view ws len hlen
+
+example := select9_view_is_rank9_build exWs9 exLen9 (by decide)
+
+/-- `Select9::new(Rank9::new(bits))`, every input of `Select9` taken from the built `Rank9`
+(`counts`, `num_ones()`): both builders succeed, `S9InvOK` holds and `select r` answers
+`selectSpec ws len r` for every `r` -/
+theorem select9_over_rank9_select_correct (ws : Array Nat) (len : Nat) (hw : WordsOK 64 ws)
+    (hlen : len ≤ 64 * ws.size) (hl64 : len < 2 ^ 64) :
+    ∃ counts n1, Rank9.build ws len = .ok counts ∧ Rank9.numOnes counts = .ok n1 ∧ n1 = numOnes ws len ∧
+      ∃ s, Select9.build ws len n1 (Select9.viewOfCounts counts) = .ok s ∧ Select9.S9InvOK ws len s ∧
+        ∀ r, Select9.select ws (Select9.viewOfCounts counts) n1 s r = .ok (selectSpec ws len r) :=
+  Select9.select9_over_rank9 ws len hw hlen hl64
+
+example := select9_over_rank9_select_correct exWsScan exLenScan exWsScan_ok exWsScan_len (by decide)
+
+/-! ## SelectSmall / SelectZeroSmall over the real RankSmall layer -/
+
+/-- the spec-level counter view the `SelectSmall` / `SelectZeroSmall` models read (`Small.viewOf` =
+`smallView` over `cumOnes`: `upper_counts`, `absolute`, `all_rel()` of every block) IS what
+`rank_small![k; bits]` builds (model `RankSmall.build`, C01), array for array and word for word;
+`num_ones()` is the number of ones of the vector -/
+theorem small_view_is_rankSmall_build (k : Nat) (ws : Array Nat) (len : Nat) (hlen : len ≤ 64 * ws.size) :
+    ∃ x, RankSmall.build (RankSmall.variant k) ws len = .ok x ∧
+      Small.viewOf (Priv.smallParams k) ws len = Small.viewOfIdx x ∧ x.numOnes = numOnes ws len :=
+  Small.rankSmall_build_view k ws len hlen
+
+example := small_view_is_rankSmall_build 4 exWs exLen (by decide)
+
+/-- `SelectSmall::with_inv(rank_small![k; bits], b)`, every input of the selector taken from the built
+`RankSmall`: both builders succeed and `select r` answers `selectSpec ws len r` for every `r` -/
+theorem small_over_rankSmall_select_correct (k b : Nat) (ws : Array Nat) (len : Nat)
+    (hlen : len ≤ 64 * ws.size)
+    (h1 : b * ((Priv.smallParams k).wpb * 64) < 2 ^ 64)
+    (h2 : numOnes ws len * (b * ((Priv.smallParams k).wpb * 64)) < 2 ^ 64) :
+    ∃ x, RankSmall.build (RankSmall.variant k) ws len = .ok x ∧ x.numOnes = numOnes ws len ∧
+      ∃ s, Small.buildWithInv (Priv.smallParams k) false ws len x.numOnes b = .ok s ∧
+        ∀ r, Small.select (Priv.smallParams k) false ws len x.numOnes (Small.viewOfIdx x) s r
+          = .ok (selectSpec ws len r) :=
+  Small.select_over_rankSmall k b ws len hlen h1 h2
+
+example := small_over_rankSmall_select_correct 1 1 exWs exLen (by decide) (by decide) (by decide +kernel)
+
+/-- the same for `SelectZeroSmall` (`num_zeros() = len - num_ones()`) -/
+theorem small_over_rankSmall_select_zero_correct (k b : Nat) (ws : Array Nat) (len : Nat)
+    (hlen : len ≤ 64 * ws.size)
+    (h1 : b * ((Priv.smallParams k).wpb * 64) < 2 ^ 64)
+    (h2 : numZeros ws len * (b * ((Priv.smallParams k).wpb * 64)) < 2 ^ 64) :
+    ∃ x, RankSmall.build (RankSmall.variant k) ws len = .ok x ∧ len - x.numOnes = numZeros ws len ∧
+      ∃ s, Small.buildWithInv (Priv.smallParams k) true ws len (len - x.numOnes) b = .ok s ∧
+        ∀ r, Small.select (Priv.smallParams k) true ws len (len - x.numOnes) (Small.viewOfIdx x) s r
+          = .ok (selectZeroSpec ws len r) :=
+  Small.selectZero_over_rankSmall k b ws len hlen h1 h2
+
+example := small_over_rankSmall_select_zero_correct 4 2 exWs exLen (by decide) (by decide) (by decide +kernel)
 
 end Sux.RS
